@@ -81,7 +81,8 @@ Definition phase_ok (g : ghost) (st : tcp_state) (len : Z) (syn_fw : bool) : Pro
   match g_phase g with
   | PSyn => g_acked g = 0 /\ len = 0 /\
             match st with
-            | Closed | Listen | SynSent | SynReceived => g_fin g = false
+            | Closed => True
+            | Listen | SynSent | SynReceived => g_fin g = false
             | FinWait1 => g_fin g = true /\ syn_fw = true    (* close() in SYN-RECEIVED *)
             | _ => False
             end
@@ -255,11 +256,11 @@ Definition g_ack (g : ghost) (d al : Z) (aof : bool) : ghost :=
 Lemma ack_step_inv : forall g st tx lsn rls win wsc fw d al (aof : bool) st' tx' win' wsc' fw',
   tx_inv_f g st tx lsn rls win wsc fw ->
   0 <= d ->
-  al = (if aof then d - 1 else d) ->
+  (g_phase g <> PSyn -> al = (if aof then d - 1 else d)) ->
+  (g_phase g = PSyn -> al = 0 /\ aof = false /\ d <= 1) ->
   (aof = true -> g_phase g = PData /\ g_fin g = true /\ d = rb_len tx + 1) ->
   (aof = false -> match g_phase g with
-                  | PSyn => d <= 1 /\ al = 0 | PData => d <= rb_len tx | PFinAcked => d = 0 end) ->
-  (g_phase g = PSyn -> al = 0) ->
+                  | PSyn => True | PData => d <= rb_len tx | PFinAcked => d = 0 end) ->
   (al > 0 -> rb_dequeue_allocated tx al = Ok tx') -> (al <= 0 -> tx' = tx) ->
   phase_ok (g_ack g d al aof) st' (rb_len tx') fw' ->
   0 <= win' <= max_window ->
@@ -269,12 +270,17 @@ Lemma ack_step_inv : forall g st tx lsn rls win wsc fw d al (aof : bool) st' tx'
 Proof.
   intros g st tx lsn rls win wsc fw d al aof st' tx' win' wsc' fw'
          (Hwf & Hcap & Ha & Hlen & Hc & Hl & Hr & Hf & Hhw & Hph & Hw & Hs)
-         Hd Hal Haof Hnaof Hsyn Hdeq Hsame Hph' Hw' Hs'.
+         Hd Hal Hsyn Haof Hnaof Hdeq Hsame Hph' Hw' Hs'.
   pose proof Hwf as (Hl0 & _).
   assert (Hal0 : 0 <= al <= rb_len tx).
-  { destruct aof; cbv iota in Hal.
-    - destruct (Haof eq_refl) as (_ & _ & E). lia.
-    - specialize (Hnaof eq_refl). destruct (g_phase g); lia. }
+  { destruct (g_phase g) eqn:P.
+    - destruct (Hsyn eq_refl) as (-> & _). lia.
+    - specialize (Hal ltac:(discriminate)). destruct aof; cbv iota in Hal.
+      + destruct (Haof eq_refl) as (_ & _ & E). lia.
+      + specialize (Hnaof eq_refl). cbv iota in Hnaof. lia.
+    - specialize (Hal ltac:(discriminate)). destruct aof; cbv iota in Hal.
+      + destruct (Haof eq_refl) as (E & _). discriminate.
+      + specialize (Hnaof eq_refl). cbv iota in Hnaof. lia. }
   assert (Htx : rb_wf tx' /\ rb_cap tx' = rb_cap tx /\ rb_len tx' = rb_len tx - al /\
                 (forall i, 0 <= i < rb_len tx - al -> rb_at tx' i = rb_at tx (al + i))).
   { destruct (Z.gtb_spec al 0).
@@ -284,12 +290,13 @@ Proof.
       split; [exact Hwf|]. split; [reflexivity|]. split; [lia|]. intros. f_equal. }
   destruct Htx as (Hwf' & Hcap' & Hlen' & Hat').
   assert (Huna : g_una (g_ack g d al aof) = g_una g + d).
-  { unfold g_una, g_ack. cbn [g_phase g_acked]. destruct aof; cbv iota in Hal.
-    - destruct (Haof eq_refl) as (P & _ & E). rewrite P. lia.
-    - specialize (Hnaof eq_refl). destruct (g_phase g) eqn:P.
-      + destruct (Z.eqb_spec d 0); lia.
-      + lia.
-      + lia. }
+  { unfold g_una, g_ack. cbn [g_phase g_acked]. destruct (g_phase g) eqn:P.
+    - destruct (Hsyn eq_refl) as (-> & -> & D1). unfold phase_ok in Hph. rewrite P in Hph.
+      destruct Hph as (A0 & _). destruct (Z.eqb_spec d 0); lia.
+    - specialize (Hal ltac:(discriminate)). destruct aof; cbv iota in Hal; lia.
+    - specialize (Hal ltac:(discriminate)). destruct aof; cbv iota in Hal.
+      + destruct (Haof eq_refl) as (E & _). discriminate.
+      + specialize (Hnaof eq_refl). cbv iota in Hnaof. lia. }
   unfold tx_inv_f. rewrite Huna.
   split; [exact Hwf'|]. split; [lia|].
   split; [cbn [g_ack g_acked]; lia|].
@@ -301,11 +308,14 @@ Proof.
   split; [cbn [g_ack g_flight g_iss]; f_equal; lia|].
   split.
   { cbn [g_ack g_flight]. split; [lia|]. unfold g_budget in *. cbn [g_ack g_phase g_fin].
-    destruct aof; cbv iota in Hal.
-    - destruct (Haof eq_refl) as (P & F & E). rewrite P, F in Hf. cbn [b2z] in Hf. lia.
-    - specialize (Hnaof eq_refl). destruct (g_phase g) eqn:P.
-      + destruct (Z.eqb_spec d 0); destruct (g_fin g); cbn [b2z]; lia.
-      + destruct (g_fin g); cbn [b2z] in *; lia.
+    destruct (g_phase g) eqn:P.
+    - destruct (Hsyn eq_refl) as (-> & -> & D1).
+      destruct (Z.eqb_spec d 0); destruct (g_fin g); cbn [b2z]; lia.
+    - specialize (Hal ltac:(discriminate)). destruct aof; cbv iota in Hal.
+      + destruct (Haof eq_refl) as (_ & F & E). rewrite F in Hf. cbn [b2z] in Hf. lia.
+      + specialize (Hnaof eq_refl). cbv iota in Hnaof. destruct (g_fin g); cbn [b2z] in *; lia.
+    - destruct aof.
+      + destruct (Haof eq_refl) as (E & _). discriminate.
       + lia. }
   split; [cbn [g_ack g_flight g_hw]; lia|].
   split; [exact Hph'|]. split; [exact Hw'|exact Hs'].
